@@ -111,6 +111,9 @@ Definition compute_tags (flag : bool) (cat : list itype) (cands : list ccand) (s
   match ob_cmd o with ONoOp => [] | _ => oracle_tags flag cat cands o end.
 
 (* ---- cases ---- *)
+(* one call of computeConsolidation: the candidates, the harness's simulation for them, the command returned *)
+Record wcompute := mkWC { wc_cands : list ccand; wc_sim : csim; wc_obs : obs }.
+
 Inductive case :=
 | CaseConst (keys : list string)                   (* ct key, zone key, reservation-id key, reserved, spot, on-demand *)
             (well_known : list bool)               (* the three keys are in v1.WellKnownLabels *)
@@ -118,16 +121,86 @@ Inductive case :=
 | CaseWLP (r : reqs) (offs : list offering) (wlp : price) (okey : price) (compat : list bool) (ncompat_its : bool)
 | CaseEvict (deletion_cost priority : Z) (cost : Z)
 | CaseOrder (r : reqs) (cat : list itype) (sorted : list string)
-| CaseCompute (flag : bool) (cat : list itype) (cands : list ccand) (s : csim) (o : obs)
-| CaseFilter (cat : list itype) (cands : list ccand) (r : reqs) (opts : list string) (out : option (list string))
-| CaseSingle (flag : bool) (cat : list itype) (tried : list (ccand * csim)) (out : option (string * obs))
-| CaseMulti (flag : bool) (cat : list itype) (cands : list ccand) (sims : list csim) (out : option (nat * obs))
+(* everything observed in one generated world shares the catalog *)
+| CaseWorld (flag : bool) (cat : list itype)
+            (computes : list wcompute)
+            (single : option (list string * option (string * obs)))   (* candidates tried; the command of ComputeCommands *)
+            (multi : option (list string * option (nat * obs)))       (* candidates in the method's order; the command *)
+            (filters : list (list ccand * reqs * list string * option (list string)))   (* filterOutSameInstanceType *)
 | CaseEmpty (cands : list ccand) (selected : list string)
 | CaseValidate (nrepl : nat) (repl : list string) (cat : list itype) (s : csim) (valid : bool).
 
 Definition price_eqb (a b : price) : bool := optZ_eqb a b.
 
-Definition nth_sim (sims : list csim) (k : nat) : csim := nth (k - 2) sims (mkCS [] []).
+Definition find_wc (names : list string) (l : list wcompute) : option wcompute :=
+  List.find (fun w => strs_eqb (map cc_name (wc_cands w)) names) l.
+Definition empty_sim : csim := mkCS [] [].
+
+Definition tag_at (i : nat) (t : string) : string := t ++ "#" ++ itoa (Z.of_nat i).
+Fixpoint indexed {A} (i : nat) (l : list A) : list (nat * A) :=
+  match l with [] => [] | x :: t => (i, x) :: indexed (S i) t end.
+
+Definition single_tags (flag : bool) (cat : list itype) (computes : list wcompute)
+                       (tried : list string) (out : option (string * obs)) : list string :=
+  let entries := map (fun n => find_wc [n] computes) tried in
+  if negb (forallb (fun e : option wcompute => match e with Some _ => true | None => false end) entries)
+  then ["corr:case_wellformed"] else
+  match out with
+  | None =>
+      if forallb (fun e : option wcompute =>
+           match e with
+           | Some w => match compute flag (map (to_cand cat) (wc_cands w)) (to_sim cat (wc_sim w)) with NoOp => true | _ => false end
+           | None => false
+           end) entries
+      then [] else ["corr:single_node"]
+  | Some (name, o) =>
+      match find_wc [name] computes with
+      | None => ["corr:single_node"]
+      | Some w =>
+          (if mem name tried then [] else ["corr:single_node"]) ++
+          (match ob_cmd o with ONoOp => ["corr:single_node"] | _ => [] end) ++
+          compute_tags flag cat (wc_cands w) (wc_sim w) o
+      end
+  end.
+
+Definition multi_tags (flag : bool) (cat : list itype) (computes : list wcompute)
+                      (order : list string) (out : option (nat * obs)) : list string :=
+  match find_wc order computes with
+  | None => ["corr:case_wellformed"]
+  | Some full =>
+    let cands := wc_cands full in
+    let mc := map (to_cand cat) cands in
+    let sim_at := fun k => match find_wc (firstn k order) computes with Some w => wc_sim w | None => empty_sim end in
+    if negb (forallb (fun k => match find_wc (firstn k order) computes with Some _ => true | None => false end)
+                     (seq 2 (length order - 1)))
+    then ["corr:case_wellformed"] else
+    match out with
+    | None =>
+        match first_n flag mc (fun k => to_sim cat (sim_at k)) with
+        | None => []
+        | Some _ => ["corr:multi_node"]
+        end
+    | Some (k, o) =>
+        let names := names_of (ob_cmd o) in
+        let r0 := match cs_new (sim_at k) with (r, _) :: _ => r | [] => [] end in
+        let simf := fun j => to_sim cat (if Nat.eqb j k then reorder names (sim_at j) else sim_at j) in
+        (match first_n flag mc simf with
+         | Some (k', d) => if Nat.eqb k k' && dec_eqb d (ob_cmd o) then [] else ["corr:multi_node"]
+         | None => ["corr:multi_node"]
+         end) ++
+        (if sorted_by_key r0 (resolve cat names) then [] else ["corr:order_by_price"]) ++
+        match ob_cmd o with ONoOp => ["corr:multi_node"] | _ => oracle_tags flag cat (firstn k cands) o end
+    end
+  end.
+
+Definition filter_tags (cat : list itype) (f : list ccand * reqs * list string * option (list string)) : list string :=
+  let '(cands, r, opts, out) := f in
+  let '(l, ok) := filter_out_same_type r (resolve cat opts) (map (to_cand cat) cands) in
+  (if wf_reqs_b r && Nat.eqb (length (resolve cat opts)) (length opts) then [] else ["corr:case_wellformed"]) ++
+  match out with
+  | None => if ok then ["corr:filter_out_same_type"] else []
+  | Some names => if ok && strs_eqb (map it_name l) names then [] else ["corr:filter_out_same_type"]
+  end.
 
 Definition check_case (c : case) : list string :=
   match c with
@@ -145,49 +218,14 @@ Definition check_case (c : case) : list string :=
   | CaseOrder r cat sorted =>
       if wf_reqs_b r && set_eqb (map it_name cat) sorted && Nat.eqb (length cat) (length sorted) && sorted_by_key r (resolve cat sorted)
       then [] else ["corr:order_by_price"]
-  | CaseCompute flag cat cands s o => compute_tags flag cat cands s o
-  | CaseFilter cat cands r opts out =>
-      let '(l, ok) := filter_out_same_type r (resolve cat opts) (map (to_cand cat) cands) in
-      (if wf_reqs_b r && Nat.eqb (length (resolve cat opts)) (length opts) then [] else ["corr:case_wellformed"]) ++
-      match out with
-      | None => if ok then ["corr:filter_out_same_type"] else []
-      | Some names => if ok && strs_eqb (map it_name l) names then [] else ["corr:filter_out_same_type"]
-      end
-  | CaseSingle flag cat tried out =>
-      match out with
-      | None =>
-          if forallb (fun cs : ccand * csim =>
-               match compute flag [to_cand cat (fst cs)] (to_sim cat (snd cs)) with NoOp => true | _ => false end) tried
-          then [] else ["corr:single_node"]
-      | Some (name, o) =>
-          match List.find (fun cs : ccand * csim => String.eqb (cc_name (fst cs)) name) tried with
-          | None => ["corr:single_node"]
-          | Some (c, s) =>
-              (match ob_cmd o with ONoOp => ["corr:single_node"] | _ => [] end) ++ compute_tags flag cat [c] s o
-          end
-      end
-  | CaseMulti flag cat cands sims out =>
-      let mc := map (to_cand cat) cands in
-      match out with
-      | None =>
-          match first_n flag mc (fun k => to_sim cat (nth_sim sims k)) with
-          | None => []
-          | Some _ => ["corr:multi_node"]
-          end
-      | Some (k, o) =>
-          let names := names_of (ob_cmd o) in
-          let r0 := match cs_new (nth_sim sims k) with (r, _) :: _ => r | [] => [] end in
-          let simf := fun j => to_sim cat (if Nat.eqb j k then reorder names (nth_sim sims j) else nth_sim sims j) in
-          (if forallb (fun s : csim => forallb (fun rn : reqs * list string =>
-                 Nat.eqb (length (resolve cat (snd rn))) (length (snd rn)) && wf_reqs_b (fst rn)) (cs_new s)) sims
-           then [] else ["corr:case_wellformed"]) ++
-          (match first_n flag mc simf with
-           | Some (k', d) => if Nat.eqb k k' && dec_eqb d (ob_cmd o) then [] else ["corr:multi_node"]
-           | None => ["corr:multi_node"]
-           end) ++
-          (if sorted_by_key r0 (resolve cat names) then [] else ["corr:order_by_price"]) ++
-          match ob_cmd o with ONoOp => ["corr:multi_node"] | _ => oracle_tags flag cat (firstn k cands) o end
-      end
+  | CaseWorld flag cat computes single multi filters =>
+      flat_map (fun iw : nat * wcompute =>
+                  map (tag_at (fst iw)) (compute_tags flag cat (wc_cands (snd iw)) (wc_sim (snd iw)) (wc_obs (snd iw))))
+               (indexed 0 computes) ++
+      (match single with Some (tried, out) => single_tags flag cat computes tried out | None => [] end) ++
+      (match multi with Some (order, out) => multi_tags flag cat computes order out | None => [] end) ++
+      flat_map (fun jf : nat * (list ccand * reqs * list string * option (list string)) =>
+                  map (tag_at (fst jf)) (filter_tags cat (snd jf))) (indexed 0 filters)
   | CaseEmpty cands selected =>
       let mc := map (to_cand []) cands in
       (if set_eqb (map c_name (emptiness mc)) selected then [] else ["corr:emptiness"]) ++
